@@ -239,7 +239,7 @@ def _folds(cfg, df):
     return pre + list(KFold(n_splits=2).split(idx))
 
 
-def _run(cfg, dseed, path, k=None, overwrite=False, pot=None, save=None):
+def _run(cfg, dseed, path, k=None, overwrite=False, pot=None, save=None, into=None):
     """one Orchestrator.fit_predict run with a fresh results object; returns (results, crashed, call log)"""
     from sktime.benchmarking.orchestration import Orchestrator
     from sktime.benchmarking.results import HDDResults, RAMResults
@@ -250,7 +250,7 @@ def _run(cfg, dseed, path, k=None, overwrite=False, pot=None, save=None):
     # explicit feature lists name the columns in the task's own order (not the frame's) and may leave columns out
     tasks = [T(target="target", features=["dim_1", "dim_0"]) if cfg.get("feat") == "permuted" else T(target="target") for _ in ds]
     strategies = [S(E(tag="s%d" % i), name="strat%d" % i) for i in range(cfg["ns"])]
-    res = HDDResults(path=path) if path else RAMResults()
+    res = into if into is not None else (HDDResults(path=path) if path else RAMResults())
     orch = Orchestrator(tasks, ds, strategies, _cv(cfg), res)
     STATE.update(n=0, k=k, log=[])
     pot = cfg["pot"] if pot is None else pot
@@ -629,5 +629,29 @@ def _ram(case, ctx):
     ctx.check("fresh-clone", all(e[3] == 1 for e in log if e[1] == "fit"), "run:estimator-instance-fitted-more-than-once", "estimator instance reused across folds")
     for m in ("resume.untouched", "resume.no-needless-work", "resume.completes", "resume.final==uninterrupted", "idempotent", "overwrite.recomputes-all"):
         ctx.seen(m, 0)
+    # a second run INTO THE SAME store, with overwriting switched on, over other data under the same data set names: the store then holds the
+    # records of the second run
+    if case["dseed"] % 2 == 0:
+        res2, crashed2, _, ds2 = _run(cfg, case["dseed"] + 1, None, overwrite=True, into=res)
+        ctx.check("overwrite.recomputes-all", not crashed2 and res2 is res, "store:ram:second-run-crashed", "a second run into the same in-memory store raised")
+        stale = 0
+        for d in ds2:
+            df = d.load()
+            for f, (tr, te) in enumerate(_folds(cfg, df)):
+                for s_ in range(cfg["ns"]):
+                    w = res.results.get("strat%d_%s_test_%d" % (s_, d.name, f))
+                    if w is None:
+                        continue
+                    ytr = np.asarray(df["target"].iloc[tr])
+                    if cfg["task"] == "TSC":
+                        vals, counts = np.unique(ytr, return_counts=True)
+                        okp = all(str(v) == str(vals[np.argmax(counts)]) for v in w.y_pred)
+                    else:
+                        okp = np.allclose(np.asarray(w.y_pred, dtype=float), round(float(np.mean(ytr.astype(float))), 6))
+                    good = list(w.index) == list(te) and okp and [str(v) for v in w.y_true] == [str(v) for v in np.asarray(df["target"].iloc[te])]
+                    stale += int(not good)
+                    ctx.check("overwrite.recomputes-all", good, "store:ram:second-run-with-overwriting-leaves-the-first-run-s-record",
+                              "after a second run with overwriting enabled the in-memory store does not hold the second run's record", record="strat%d_%s_test_%d" % (s_, d.name, f))
+        ctx.tag("ram:second-run-into-the-same-store")
     ctx.event(cfg=cfg, store="RAM", records=len(got))
     ctx.nontrivial = True
